@@ -5,10 +5,11 @@
    every anonymous record, in first-occurrence order; and the attribute half: a merged
    record holds exactly the images of its group's attribute values; and idempotence: the
    records unified() returns are a fixed point of unification, and in the document it returns
-   no container has anything left to merge.  "Conflict iff raise"
-   is established by the correspondence run and the independent merge oracle (partial). *)
+   no container has anything left to merge; and "raises exactly on conflict", both halves: a raise is a
+   ProvException and comes with a conflict (C08_raises_only_on_conflict), and a conflict on any formal attribute
+   other than prov:entity between any two records of a group makes unified() raise (C08_conflict_always_raises). *)
 From Coq Require Import String List Arith ZArith.
-From Prov Require Import Str Sexp Tables Nsm Values Record World Interp InterpProofs NsmProofs RecordProofs UnifyProofs UnifyIdemProofs UnifyDocProofs Derive IdemProofs ReaddProofs GoodProofs ConflictProofs.
+From Prov Require Import Str Sexp Tables Nsm Values Record World Interp InterpProofs NsmProofs RecordProofs UnifyProofs UnifyIdemProofs UnifyDocProofs Derive IdemProofs ReaddProofs GoodProofs ConflictProofs SingleProofs NormalWorld ConverseProofs.
 Import ListNotations.
 Open Scope string_scope.
 
@@ -88,10 +89,47 @@ Theorem C08_raises_only_on_conflict : forall ft ops c b e,
 Proof. exact reachable_unified_raises. Qed.
 Print Assumptions C08_raises_only_on_conflict.
 
-(* not proved: the if half (every conflict raises); it was false for memberships (finding C08-F1; the prov:collection
-   half is repaired in /repo together with C05-F1: see C08_membership_conflict_raises below; memberships that disagree
-   on their member only are still merged: C08_membership_members_united, and re-creating the merged record is outside
-   the model's domain — World.formal_single) and is decided per run by the merge oracle *)
+(* ---- the if half: every strict conflict raises.  sconflict q1 q2: under a formal attribute other than prov:entity
+   (the members of a collection, which the library lets accumulate and unites — C08_membership_members_united), q1 and
+   q2 hold values that are not equal (Python ==).  In every reachable container, when two records of one (kind,
+   identifier) group conflict — whichever two: neither need be the first of its group, and the first need not hold the
+   attribute at all — unified() does not return: it raises ProvException.  (OutOfDomain is the model declining to say:
+   World.formal_single, a record holding two members re-added; the walk's fuel is the length of the list plus one and
+   never runs out.)  With C08_raises_only_on_conflict this is "raises exactly on conflict". *)
+Theorem C08_no_conflict_when_returns : forall ft b u,
+  (forall r, In r (brecs b) -> good_rec ft r) -> (forall r, In r (brecs b) -> NormalE r) ->
+  unified_records ft b = OK u -> ~ group_sconflict (brecs b).
+Proof. exact unified_returns_no_conflict. Qed.
+Print Assumptions C08_no_conflict_when_returns.
+
+Theorem C08_conflict_always_raises : forall ft ops c b,
+  let w := wrun ft ops in
+  get_cont w c = Some b -> group_sconflict (brecs b) ->
+  unified_records (wft w) b = Raise EProv \/ unified_records (wft w) b = OutOfDomain.
+Proof. exact reachable_conflict_raises. Qed.
+Print Assumptions C08_conflict_always_raises.
+
+(* the hypotheses are met and the conclusion is the first disjunct: three activities under one identifier, the first
+   without prov:startTime, the second and third with different ones *)
+Definition ex_late_conflict : list prec :=
+  let exq l := mkQn (mkNs "ex" "http://e/") l in
+  [mkRec "Activity" (Some (exq "a")) [(exq "k", [VInt 1%Z])];
+   mkRec "Activity" (Some (exq "a")) [(prov_qn "startTime", [VTime (mkDt 2012 3 31 9 21 0 0 None)])];
+   mkRec "Activity" (Some (exq "a")) [(prov_qn "startTime", [VTime (mkDt 2013 6 6 12 30 0 0 None)])]].
+Example C08_late_conflict_is_conflict : group_sconflict ex_late_conflict.
+Proof.
+  exists (nth 0 ex_late_conflict (mkRec "" None [])), (nth 1 ex_late_conflict (mkRec "" None [])),
+         (nth 2 ex_late_conflict (mkRec "" None [])).
+  repeat (split; [vm_compute; auto|]).
+  exists (prov_qn "startTime"), (VTime (mkDt 2012 3 31 9 21 0 0 None)), (VTime (mkDt 2013 6 6 12 30 0 0 None)).
+  repeat (split; [vm_compute; auto|]). vm_compute. reflexivity.
+Qed.
+Example C08_late_conflict_raises : unified_records [] (mkB None nsm_init ex_late_conflict []) = Raise EProv.
+Proof. vm_compute. reflexivity. Qed.
+
+(* memberships: the prov:collection half of finding C08-F1 is repaired in /repo together with C05-F1
+   (C08_membership_conflict_raises below); memberships that disagree on their member only are merged and their members
+   united (C08_membership_members_united) — the open, narrowed C08-F1, outside sconflict by definition *)
 
 (* merging computes: two entities and an agent on one identifier, an anonymous
    relation; the agent survives (repaired grouping), attribute sets are united *)
